@@ -156,8 +156,16 @@ def run(ctx):
         if rng.random() < 0.3:
             pre.append("(define-syntax swap-args (syntax-rules () ((swap-args f a b) (f b a))))")
             pre.append("(swap-args - 1 10)")
+        if rng.random() < 0.3:
+            # tokens that contain line breaks, parentheses and semicolons: later positions depend on counting them right
+            pre.insert(rng.randint(0, len(pre)), rng.choice(['(define ml-text "first line\n   second (line ; no comment\n")',
+                                                             '(define ml-text (list "a\nb" #\( #\; "\n\n"))',
+                                                             '(define ml-text \'("x ; y\n" "(((\n"))']))
         f, kind, site = fault_form(rng)
-        texts = ["(import (scheme base) (scheme write))"] + pre + [S.render(f)] + ["(display 'never-reached)"]
+        ftext = S.render(f)
+        if rng.random() < 0.2 and not ftext.startswith("(define"):
+            ftext = '(begin "two\nlines (" %s)' % ftext
+        texts = ["(import (scheme base) (scheme write))"] + pre + [ftext] + ["(display 'never-reached)"]
         text, extents, positions = layout(rng, texts)
         fidx = 1 + len(pre)
         site_ext = []
@@ -166,7 +174,7 @@ def run(ctx):
             if len(hits) != 1:
                 raise ToolError("cannot locate the site token")
             site_ext = [hits[0][0][0], hits[0][0][1], hits[0][1][0], hits[0][1][1]]
-        cases.append({"text": text, "form": extents[fidx], "site": site_ext, "kind": kind, "fault": S.render(f)})
+        cases.append({"text": text, "form": extents[fidx], "site": site_ext, "kind": kind, "fault": ftext})
     # ---- through the library interface: Interpreter::eval of the whole text
     jobs = [{"id": i, "kind": "session", "steps": [{"op": "new", "i": 0, "stdlib": False, "natives": False}, {"op": "eval", "i": 0, "text": c["text"]}]} for i, c in enumerate(cases)]
     res = run_jobs(jobs, ctx.dir, tag="api", timeout=3000, job_timeout_ms=10000)
